@@ -76,6 +76,7 @@ func largePolicies(path string, rng *rand.Rand, sizes []int) {
 	printedPolicies(o, rng, 60)
 	rejectedPolicies(o, rng, 44)
 	longValues(o, rng)
+	bigKeys(o, rng)
 }
 
 // printLine: a policy with 6 to 9 leaves is parsed, used once (Satisfaction re-sorts its gates in place, and Encrypt serialises them in
@@ -178,6 +179,55 @@ func longValues(o *vlib.Out, rng *rand.Rand) {
 		})
 		if oc.Bad() {
 			l.Panics, l.Note = 1, oc.Panic
+		}
+		o.Emit(l)
+	}
+}
+
+// bigKeys: attribute keys whose encoding does not fit the 16-bit length fields of the key format (one very long label; very many
+// attributes): MarshalBinary either refuses, or what it returns decodes to an equal key.
+func bigKeys(o *vlib.Out, rng *rand.Rand) {
+	rd := vlib.SeededReader{R: rng}
+	_, msk, err := tkn20.Setup(rd)
+	if err != nil {
+		vlib.Die("tkn20.Setup: %v", err)
+	}
+	for _, c := range []struct {
+		name  string
+		attrs map[string]string
+	}{{"label-65541-bytes", map[string]string{strings.Repeat("l", 65541): "v"}}, {"label-65535-bytes", map[string]string{strings.Repeat("l", 65535): "v"}},
+		{"label-300-bytes", map[string]string{strings.Repeat("l", 300): "v"}},
+		{"1900-attributes", func() map[string]string {
+			m := map[string]string{}
+			for i := 0; i < 1900; i++ {
+				m[fmt.Sprintf("attr%04d", i)] = "v"
+			}
+			return m
+		}()}} {
+		l := longLine{Ev: "bigkey", Len: len(c.attrs)}
+		l.Note = c.name
+		oc := vlib.Safe(600e9, func() {
+			var at tkn20.Attributes
+			at.FromMap(c.attrs)
+			k, err := msk.KeyGen(rd, at)
+			if err != nil {
+				l.EncryptErr = true // the key cannot be made at all: fine
+				return
+			}
+			b, err := k.MarshalBinary()
+			if err != nil {
+				l.EncryptErr = true
+				return
+			}
+			var k2 tkn20.AttributeKey
+			if err := k2.UnmarshalBinary(b); err != nil {
+				l.Note += ": the marshalled key does not decode: " + err.Error()
+				return
+			}
+			l.RtEqual = k2.Equal(&k)
+		})
+		if oc.Bad() {
+			l.Panics, l.Note = 1, c.name+": "+oc.Panic
 		}
 		o.Emit(l)
 	}
